@@ -638,6 +638,14 @@ func OracleC07(t *Tree, n *nk.Node, hist []int, ev int, pre, post *Obs, err erro
 	if !nb.Valid {
 		return "", fmt.Sprintf("P1 best block %d is on an invalid branch", nb.Idx)
 	}
+	// P1d: the choice is durable - the persisted latest pointer names the same block (a restart
+	// loads the best block from it)
+	if cst, _ := n.CS.VerifStores(); cst != nil {
+		no := types.BlockNoFromBytes(cst.Get(dbkey.LatestBlock()))
+		if h, herr := n.CS.VerifGetHashByNo(no); no != nb.Block.BlockNo() || herr != nil || string(h) != string(nb.Block.BlockHash()) {
+			return "", fmt.Sprintf("P1 the persisted latest pointer names height %d, the best block %d has height %d: after a restart the node is not on the chosen branch", no, nb.Idx, nb.Block.BlockNo())
+		}
+	}
 	// P2: a shorter or equal branch never displaces the main chain
 	if nb.Idx != ob.Idx && nb.Height <= ob.Height {
 		return "", fmt.Sprintf("P2 best moved from block %d (height %d) to block %d (height %d)", ob.Idx, ob.Height, nb.Idx, nb.Height)
